@@ -761,7 +761,7 @@ def minzero(rep, meta, sfx):
 # ------------------------------------------------------------------ ALLRULES
 
 def allrules(rep, meta, sfx):
-    r = rep.rule("C06.ALLRULES" + sfx, 2,
+    r = rep.rule("C06.ALLRULES" + sfx, 1,
                  "a validation pass that asks the nullability questions per rule looks at EVERY rule of the grammar: the "
                  "iterator chain over the rule list it is given contains no selector that can stop early or drop rules "
                  "(find, find_map, position, next, nth, take, take_while, skip, step_by, first, last) - both WHITESPACE and "
